@@ -53,7 +53,13 @@ def process(ctx, r, prop, drv, rc, lines, args, mode):
                           '%s on the real runtime (%s, %s workers, mode %s): %s' % (what, args[2], args[3], mode, m),
                           dict(rep, line=m)))
     summary = [x for x in lines if x.startswith('SUMMARY ')]
-    if rc != 0 and not mons:
+    inconc = [x for x in lines if x.startswith('INCONCLUSIVE ')]
+    if rc == 4 and inconc and not mons:
+        # the runtime was still busy when the (generous) time limit expired: slow progress and a
+        # livelock cannot be told apart by the clock; recorded, never alarmed
+        r.count('inconclusive_timeout')
+        r.notes.append('%s %s workers mode %s: %s' % (args[2], args[3], mode, inconc[0]))
+    elif rc != 0 and not mons:
         tail = ' | '.join([x for x in lines if x and not x.startswith(('IN ', 'OUT '))][-6:])
         what = 'hang' if rc == 124 else 'crash'
         r.hits.append(Hit('monitor', '%s:%s:%s' % (prop, what, mode),
